@@ -22,6 +22,8 @@ func init() {
 		Phases: func(tier string) []engine.Phase {
 			zs := zooms(tier)
 			return []engine.Phase{
+				respellNotationPhase("C10", tier),
+				longIDListPhase("C10", tier),
 				{Name: "object-roundtrip", Serial: true, Bounds: engine.Bounds{InputDev: -1},
 					Rule: "full product h x v x x,y in HIdx(h) x f in VIdx(v): NewExtendedSpatialID(s).ID()==s, FieldParams and getters positional, GetVoxelIDfromSpatialID; non-trivial = distinct IDs whose five components are pairwise distinct",
 					Body: func(c *engine.Ctx) {
@@ -113,7 +115,7 @@ func init() {
 						}
 					}},
 				{Name: "expansion", Serial: true, Bounds: engine.Bounds{InputDev: -1},
-					Rule: "full product h x v with |h-v| <= 4 x x,y in HIdxSmall(h) x f in VIdx(v): ConvertExtendedSpatialIDToSpatialIDs is duplicate-free, all at max(h,v), count 4^d or 2^d, and its union is exactly the voxel (ref.ChangeZoom); non-trivial = distinct IDs with h != v",
+					Rule: "full product h x v with |h-v| <= 4 x x,y in HIdxSmall(h) x f in VIdx(v): ConvertExtendedSpatialIDToSpatialIDs is duplicate-free, all at max(h,v), count 4^d or 2^d, and its union is exactly the voxel (ref.ChangeZoom); the caller's object prints the same ID afterwards and expands to the same list a second time; non-trivial = distinct IDs with h != v",
 					Body: func(c *engine.Ctx) {
 						h := zs[c.In("h", len(zs))]
 						dz := int64(c.In("dz", 9)) - 4
@@ -135,6 +137,13 @@ func init() {
 						gotR := transform.ConvertExtendedSpatialIDToSpatialIDs(reusedExt)
 						o, _ := object.NewExtendedSpatialID(in.Ext())
 						got := transform.ConvertExtendedSpatialIDToSpatialIDs(o)
+						// the caller's object must still print the five numbers it was parsed from, and a second
+						// expansion of the same object must give the same list
+						if after := o.ID(); after != in.Ext() {
+							c.Violation("C10:ConvertExtendedSpatialIDToSpatialIDs:modifies-the-callers-object", map[string]any{"id": in.Ext(), "object_prints_afterwards": after})
+						} else if again := transform.ConvertExtendedSpatialIDToSpatialIDs(o); !eqStrs(sortedCopy(again), sortedCopy(got)) {
+							c.Violation("C10:ConvertExtendedSpatialIDToSpatialIDs:second-expansion-of-the-same-object-differs", map[string]any{"id": in.Ext(), "first": head(got, 6), "second": head(again, 6)})
+						}
 						reusedExt2.SetZoom(h, v)
 						reusedExt2.SetX(x)
 						reusedExt2.SetY(y)
